@@ -10,6 +10,6 @@ RULE = ("impl->spec: corpus programs (extracted from the repository's tests, exa
 
 def run(run, harness, replay=None):
     corpus = os.path.join(VERIF, "corpus")
-    quick = [["eval-corpus", corpus, "@OUT", "60", "6"], ["eval-gen", "@OUT", "1000", "6", "default"], ["eval-gen", "@OUT", "300", "6", "default", "effects"]]
+    quick = [["eval-corpus", corpus, "@OUT", "60", "6"], ["eval-gen", "@OUT", "1000", "6", "default"], ["eval-gen", "@OUT", "300", "6", "default", "effects"], ["eval-gen", "@OUT", "500", "6", "mutation", "effects"]]
     thorough = [["eval-corpus", corpus, "@OUT", "400", "16"], ["eval-gen", "@OUT", "12000", "12", "default"], ["eval-gen", "@OUT", "4000", "8", "default", "effects"], ["eval-gen", "@OUT", "3000", "8", "mutation"]]
     run_eval_check(run, harness, replay, quick, thorough, RULE)
